@@ -11,11 +11,12 @@ universally quantified; each task runs any sequence of reader rounds `tracked();
 sessions `input_session(); set_input*; commit | drop`), any initial epoch and inputs, any executors
 (`Cfg.exec`, subject to `ExecLocal` where stated), fair or unfair phase lock (`Cfg.fair`).
 
-`Cfg.lockFirst = true` is the repaired order of `input_session()` (exclusive phase lock first, then the
-write batch, the timestamp bump and the staged timestamp write — `fixes/F5-lock-before-bump.diff`);
-`Cfg.lockFirst = false` is the order of the code as it is.  `snapshot_consistent`, `snapshot_stable` and
+`Cfg.lockFirst = true` is the order of `input_session()` in the code (exclusive phase lock first, then the
+write batch, the timestamp bump and the staged timestamp write — /repo commit 7a67ce5, finding F5 fixed;
+the harness probes the order on every run and validates the traces against this configuration);
+`Cfg.lockFirst = false` is the order the code had before that commit.  `snapshot_consistent`, `snapshot_stable` and
 `session_atomic` are proved for the repaired order and `snapshot_consistent_asis_refuted` shows that
-the first fails for the order as it is (finding F5); `phase_exclusive` and `phase_progress` hold for
+the first failed for the earlier order (finding F5, kept as a regression witness); `phase_exclusive` and `phase_progress` hold for
 both orders.
 -/
 
@@ -101,7 +102,8 @@ theorem phase_progress :
   exact ⟨fun hr hs => h1 c e0 inp scripts s _ _ hr hs, fun hr hf => h2 c e0 inp scripts s hr hf,
     fun evs hrun => h3 c e0 inp scripts evs s hrun⟩
 
-/-- Finding F5: `snapshot_consistent` FAILS for the order of the code as it is.
+/-- Finding F5 (fixed in /repo by 7a67ce5): `snapshot_consistent` FAILS for the order the code had before
+(bump before lock).
 
 There are a configuration with `lockFirst = false` (FIFO lock, local executors), three tasks and a
 reachable state in which the session of epoch 2 (`set 0 := 7`) has been committed and released and
@@ -109,7 +111,8 @@ reachable state in which the session of epoch 2 (`set 0 := 7`) has been committe
 enabled with the value `105` only — the value over the inputs of epoch 1 — whereas the inputs of epoch
 2 give `107`; and the node of key 1 is stamped with epoch 2 while holding the value of epoch 1's
 inputs ("new epoch, old inputs").  The schedule (`wSched`) is checked by kernel evaluation; the same
-schedule is forced on the real code by `corpus/C04-F5-window.txt`. -/
+schedule was forced on the unrepaired code by `corpus/C04-F5-window.txt`; on the repaired code the same
+gates run on every check and the reader is simply kept out (the case must come out clean). -/
 theorem snapshot_consistent_asis_refuted :
     ∃ (c : Cfg) (s : State) (v : Val) (s' : State),
       c.lockFirst = false ∧ c.fair = true ∧ ExecLocal c.exec ∧
